@@ -59,6 +59,20 @@ def replay(prop, path):
                 a1, a2 = _ans(r1), _ans(r2)
                 print("before:", sorted(a1) if a1 is not None else None, "after:", sorted(a2) if a2 is not None else None)
                 bad = a1 != a2
+        elif kind == "share_all":
+            rw = b.job({"job": "share_all", "irs": r["irs"], "derived": r["heads"]})
+            i = r["heads"].index(r["head"])
+            r1 = b.job({"job": "exec_ir", "ir": r["irs"][i], "edb": r["edb"]})
+            edb2 = dict(r["edb"])
+            views = rw.get("views") or {}
+            for _ in range(len(views) + 1):
+                for name in sorted(views):
+                    rv = b.job({"job": "exec_ir", "ir": views[name], "edb": edb2})
+                    edb2[name] = rv.get("answer", [])
+            r2 = b.job({"job": "exec_ir", "ir": rw["irs"][i], "edb": edb2})
+            a1, a2 = _ans(r1), _ans(r2)
+            print("before:", sorted(a1) if a1 is not None else None, "after:", sorted(a2) if a2 is not None else None)
+            bad = a1 != a2
         elif kind == "rewrite-panic":
             rw = b.job({"job": "rewrite", "ir": r["ir"], "pass": r["pass"]})
             bad = bool(rw.get("panic") or rw.get("crash"))
